@@ -2,6 +2,7 @@
 from hypothesis import strategies as st
 
 from checks import _simutil as U
+from checks import _simctl as S
 from sim import wire
 from vlib.harness import hyp_part, EnumPart
 
@@ -104,7 +105,7 @@ def _run(case, ctx, sim):
     nodes = case["nodes"]
     addrs = ["10.0.0.%d" % (i + 1) for i in range(len(nodes))]
     for a, spec in zip(addrs, nodes):
-        n = sim.net.add_node(a, versions=tuple(spec["versions"]))
+        n = S.fix_legacy_rows(sim.net.add_node(a, versions=tuple(spec["versions"])))
         n.on_request = handler(spec)
     prof = ExecutionProfile(load_balancing_policy=U.fixed_plan_policy())
     kw = dict(execution_profiles={EXEC_PROFILE_DEFAULT: prof}, allow_beta_protocol_version=allow_beta)
